@@ -6,7 +6,7 @@ import vcommon as V
 PROPS = ['props/C20.v', 'regress/C20.v', 'props/C20_src.v']
 GEN_OBLIGATIONS = ['cli_verify_propagates_error', 'cli_verify_wiring', 'cli_run_uses_LinkNameFormat',
                    'cli_record_uses_formats', 'cli_errors_all_returned', 'cli_key_loading', 'cli_sign_shape',
-                   'cli_match_products_exit', 'cli_key_cmds']
+                   'cli_match_products_exit', 'cli_key_cmds', 'cli_list_flags_verbatim']
 ASSUMPTIONS = [
     "cmd/verify.go is modelled as load layout -> load each key -> read each intermediate -> InTotoVerify -> error to exit status; "
     "LoadMetadata, Key.LoadKeyDefaults, os.ReadFile and InTotoVerify are parameters of the model (universally quantified in "
@@ -38,7 +38,7 @@ EXPLANATION = (
     "child process on the same files, and the generator's ground truth; likewise sign --verify, key id, key layout, "
     "match-products; produced file names against link_name of the model and LoadLinksForLayout.")
 
-STRING_CLASSES = ('sprintf/', 'loader-glob', 'link-name', 'meta-step-name')
+STRING_CLASSES = ('sprintf/', 'loader-glob', 'link-name', 'link-artifacts', 'meta-step-name')
 
 
 def build_cli(ctx):
@@ -96,7 +96,13 @@ def correspondence(ctx):
                  "(two spellings of -k, relative/absolute paths, links in cwd or --link-dir) and after each of: product modified / added / "
                  "removed, link hash edited, link dropped, link re-signed by a stranger, wrong layout key, extra non-signer key, layout "
                  "edited after signing, layout expired, wrong link-dir, intermediate not passed, normalisation flag dropped; "
-                 "sign --verify x8, key id / key layout per key, match-products x6. Quick: 12 featured chains (those that failed before "
+                 "sign --verify x8, key id / key layout per key, match-products x6. Half of the random chains execute one step twice by the same "
+                 "functionary into the same metadata directory (first execution with more output and one more product, so the second link is "
+                 "the shorter document written over the longer one); every chain also signs the layout with `sign -o` onto an existing "
+                 "longer (earlier draft) and shorter file and verifies with the result; a third of the chains use artifact names, strip "
+                 "prefix, exclude pattern and match-products path with commas, spaces, '=', leading '-', double quote and non-ASCII "
+                 "(decoy files named like the comma-separated pieces exist), and every link's materials/products are compared with the "
+                 "names the history demands. Quick: 12 featured chains (those that failed before "
                  "F6/F9/F18) + 36 random; thorough: + all 240 combinations of wrapper mode x method x recording mode x strip x metadata "
                  "dir x key kind and 360 random. evaluations = CLI invocations compared (exit status vs library in a child process vs "
                  "ground truth); string-level cases (Sprintf of the 5 constants, real filepath.Glob on a directory, short id) are counted "
